@@ -559,7 +559,7 @@ def run(c):
         res = json.load(open(resj))
         for pv in res["pv"]:
             c.violation(pv["key"], pv["what"], {"storm": True, "seed": c.seed, "pair": pv.get("pair"), "pv": pv})
-        if res["pairs"] < 100 or res["callers"] < res["pairs"]:
+        if not res["pv"] and (res["pairs"] < 100 or res["callers"] < res["pairs"]):
             c.fail_tool("vacuous storm: %d pairs, %d callers" % (res["pairs"], res["callers"]))
         c.cov["storm"] = {k: res[k] for k in ("pairs", "planned_pairs", "callers", "never_released", "sampled", "traces", "res_path", "res_error", "wall_s")}
         c.cov["evaluations"] += res["callers"]
